@@ -402,6 +402,15 @@ func TestC16Local(t *testing.T) {
 				tb.Cols[i].Cons = append(append([]string{}, tb.Cols[i].Cons...), rapid.SampledFrom(forms).Draw(t, "fkform1"))
 				tb.Cols[j].Cons = append(append([]string{}, tb.Cols[j].Cons...), rapid.SampledFrom(forms).Draw(t, "fkform2"))
 			}
+			if len(tb.Cols) >= 2 && rapid.IntRange(0, 5).Draw(t, "twotablefk") == 0 {
+				// two foreign key constraints of the table, the later one (or
+				// both) over two columns: the column lists of one are no
+				// business of the other
+				a, b := tb.Cols[0].Ident.SQL, tb.Cols[1].Ident.SQL
+				first := rapid.SampledFrom([]string{"FOREIGN KEY (" + b + ") REFERENCES q (z)", "FOREIGN KEY (" + a + ", " + b + ") REFERENCES q (z, w)", "FOREIGN KEY (" + a + ") REFERENCES q"}).Draw(t, "tfk1")
+				second := rapid.SampledFrom([]string{"FOREIGN KEY (" + a + ", " + b + ") REFERENCES p (x, y)", "FOREIGN KEY (" + b + ", " + a + ") REFERENCES p (x, y) ON DELETE CASCADE"}).Draw(t, "tfk2")
+				tb.Cons = append(append(append([]string{}, tb.Cons...), first), second)
+			}
 			s := localSpec{Table: tb}
 			n := len(tb.Cols)
 			if rapid.IntRange(0, 2).Draw(t, "isindex") == 0 {
